@@ -223,6 +223,67 @@ func main() {
 	if len(pending) != 0 {
 		fail("dangling fallthrough")
 	}
+	// getEscapedRune: the chain `if ch == 'n' { return rune(10) } else if ...` and the final `return rune(ch)`
+	type esc struct{ from, to int64 }
+	var escapes []esc
+	for _, d := range f.Decls {
+		fd, ok := d.(*ast.FuncDecl)
+		if !ok || fd.Name.Name != "getEscapedRune" {
+			continue
+		}
+		if len(fd.Body.List) != 2 {
+			fail("getEscapedRune: expected one if-chain and one return")
+		}
+		var st ast.Stmt = fd.Body.List[0]
+		for st != nil {
+			is, ok := st.(*ast.IfStmt)
+			if !ok || is.Init != nil || len(is.Body.List) != 1 {
+				fail("getEscapedRune: unexpected statement in the chain")
+			}
+			be, ok := is.Cond.(*ast.BinaryExpr)
+			if !ok || be.Op != token.EQL {
+				fail("getEscapedRune: condition is not ch == 'c'")
+			}
+			l, ok1 := be.X.(*ast.Ident)
+			r, ok2 := be.Y.(*ast.BasicLit)
+			if !ok1 || !ok2 || l.Name != "ch" || r.Kind != token.CHAR {
+				fail("getEscapedRune: condition is not ch == 'c'")
+			}
+			c, _, _, err := strconv.UnquoteChar(r.Value[1:len(r.Value)-1], '\'')
+			if err != nil {
+				fail(err.Error())
+			}
+			ret, ok := is.Body.List[0].(*ast.ReturnStmt)
+			if !ok || len(ret.Results) != 1 {
+				fail("getEscapedRune: branch is not a return")
+			}
+			call, ok := ret.Results[0].(*ast.CallExpr)
+			if !ok || len(call.Args) != 1 {
+				fail("getEscapedRune: branch does not return rune(n)")
+			}
+			lit, ok := call.Args[0].(*ast.BasicLit)
+			if !ok || lit.Kind != token.INT {
+				fail("getEscapedRune: branch does not return rune(<integer>)")
+			}
+			v, err := strconv.ParseInt(lit.Value, 0, 64)
+			if err != nil {
+				fail(err.Error())
+			}
+			escapes = append(escapes, esc{int64(c), v})
+			if is.Else == nil {
+				st = nil
+			} else {
+				st = is.Else
+			}
+		}
+		ret, ok := fd.Body.List[1].(*ast.ReturnStmt)
+		if !ok || len(ret.Results) != 1 || exprText(fset, ret.Results[0]) != "rune(ch)" {
+			fail("getEscapedRune: the default is not `return rune(ch)`")
+		}
+	}
+	if escapes == nil {
+		fail("getEscapedRune not found")
+	}
 	q := func(s string) string { return "\"" + strings.ReplaceAll(s, "\"", "\"\"") + "\"" }
 	list := func(xs []string) string {
 		ys := make([]string, len(xs))
@@ -240,7 +301,7 @@ func main() {
 	}
 	var b strings.Builder
 	b.WriteString("(* GENERATED on every run by /verif/lextab from /repo/libvore/ast/lexer.go as it is now. Do not edit. *)\n")
-	b.WriteString("From Coq Require Import String List.\nImport ListNotations.\nOpen Scope string_scope.\n\n")
+	b.WriteString("From Coq Require Import String List NArith.\nImport ListNotations.\nOpen Scope string_scope.\n\n")
 	b.WriteString("Definition gen_ttypes : list string := " + list(ttypes) + ".\n\n")
 	b.WriteString("Definition gen_states : list string := " + list(states) + ".\n\n")
 	b.WriteString("(* the final switch of getNextToken: state -> tok:TYPE | err:Kind | table:DEFAULT:which (fallthrough chains resolved) *)\n")
@@ -250,6 +311,12 @@ func main() {
 	b.WriteString("(* how the key looked up in each table is computed from the token's text *)\n")
 	b.WriteString("Definition gen_keyword_key : string := " + q(keywordKey) + ".\n")
 	b.WriteString("Definition gen_operator_key : string := " + q(operatorKey) + ".\n\n")
+	var es []string
+	for _, e := range escapes {
+		es = append(es, fmt.Sprintf("(%d, %d)", e.from, e.to))
+	}
+	b.WriteString("(* getEscapedRune: the character after a backslash -> the rune it stands for, in the order tested; anything else stands for itself *)\n")
+	b.WriteString("Definition gen_escapes : list (N * N) := [" + strings.Join(es, "; ") + "]%N.\n\n")
 	b.WriteString(fmt.Sprintf("Definition gen_final_has_default_panic : bool := %v.\n", hasDefaultPanic))
 	if err := os.WriteFile(os.Args[2], []byte(b.String()), 0o644); err != nil {
 		fail(err.Error())
